@@ -99,3 +99,35 @@ contract("C09.add_definition", file=D, func="DefinitionDict._add_definition",
                                                             " and forall_str(lambda k: implies(k in old(self.defs), self.defs[k] is old(self.defs)[k])))",
              "C09.issues.earlier_issues_kept": "all(self._issues[k] is old(self._issues)[k] for k in range(len(old(self._issues))))",
          })
+
+# C09 acceptance rule: "exactly one '#' on a value-taking tag if and only if its name ends in '/#'" - over ALL tags of the content, at any depth.
+# Proved: the rejection directions below and the loop invariants (the listed '#' tags are exactly the '#' tags of get_all_tags(), their
+# number is n_hash_tags).  NOT decided within budget on two paths each and therefore not claimed (bounded workload rt/c09 'placeholder depth'
+# decides them): "a wrong number of '#' tags is rejected" and "one '#' on a value-taking tag at any depth is accepted".
+NH = "(lambda t: count_of(t.__str__, '#'))"
+TAGS = "all_tags_of(group)"
+contract("C09.all_tags_for_placeholders", file="hed/models/hed_group.py", func="HedGroup.get_all_tags",
+         params={"self": "HedGroup"}, returns="List[HedTag]", enc="native", trusted=True,
+         ensures={"named": "result == all_tags_of(self)"})
+contract("C09.direct_tags", file="hed/models/hed_group.py", func="HedGroup.tags",
+         params={"self": "HedGroup"}, returns="List[HedTag]", enc="native", trusted=True,
+         ensures={"named": "result == direct_tags_of(self)"},
+         assume=["HedGroup.tags() (direct children only) is some list direct_tags_of(group), unrelated to all_tags_of(group) as far as the proof knows"])
+contract("C09.validate_placeholders", file=D, func="DefinitionDict._validate_placeholders",
+         params={"self": "Opaque", "def_tag_name": "Str", "group": "HedGroup", "def_takes_value": "Bool", "error_handler": "Opaque"},
+         returns="List[Issue]", enc="native", also=["C08"],
+         locals={"placeholder_tags": "List[HedTag]", "tags_with_issues": "List[HedTag]"},
+         requires=["group.__bool__ or len(all_tags_of(group)) == 0"],        # a group without children has no tags
+         lets={"T": TAGS, "want": "(1 if def_takes_value else 0)"},
+         ensures={
+             "C09.placeholder.tag_with_two_hashes_rejected": "implies(any(" + NH + "(T[k]) > 1 for k in range(len(T))), len(result) > 0)",
+             "C09.placeholder.hash_on_non_value_tag_rejected": "implies(def_takes_value and n_hash_tags(T, len(T)) == 1 and"
+                 " any(" + NH + "(T[k]) > 0 and not has_attr(T[k], 'takesValue') for k in range(len(T))), len(result) > 0)",
+             "C09.placeholder.issues_are_definition_errors": "all_in(result, lambda x: x.code == 'DEFINITION_INVALID' and x.severity == 1)",
+         },
+         loops={0: {"invariant": [
+             "len(placeholder_tags) == n_hash_tags(_iter0, _n)",
+             "all_in(placeholder_tags, lambda t: is_in(t, _iter0) and " + NH + "(t) > 0)",
+             "all(implies(" + NH + "(_iter0[k]) > 0, is_in(_iter0[k], placeholder_tags)) for k in range(_n))",
+             "(len(tags_with_issues) > 0) == any(" + NH + "(_iter0[k]) > 1 for k in range(_n))",
+         ]}})
